@@ -89,6 +89,7 @@ def run(ch, build, hooks=(hook,), prop="C10"):
         hist.replay(ch, scns, outs, hooks, prop.lower())
         ch.extra["scripts_%s" % ("session" if session else "sessionless")] = len(scripts)
     if prop == "C10":
+        udp_histories(ch, hooks)
         real_udp_loss(ch, started)
     ch.extra["depth"] = depth
     ch.exhaustive = True
@@ -130,6 +131,45 @@ def real_udp_loss(ch, started):
             ch.violation({"kind": "c10", "conn": rq["call"], "family": "real-udp-loss"},
                          {"request": rq, "result": res, "what": "after %d unanswered / temporary attempts the genuine answer must be returned "
                           "(expected %d transmissions; the context had %d ms)" % (rq["until"], rq["until"] + 1, rq["deadline_ms"])})
+
+
+def udp_histories(ch, hooks):
+    """the same contract through the library's own UDP transport (socket, read deadline, receive buffer) on loopback:
+    datagrams too short to be RMCP (0..3 bytes), garbage, temporary codes and lost replies, session-less, in-session and
+    during each of the three handshake exchanges"""
+    from . import hs
+    rng = ch.rng
+    short = ["raw:", "raw:06", "raw:0600", "raw:0600ff"]
+    for session in (False, True):
+        scripts = [[a] for a in short] + [[a, b] for a in short for b in ("busy", "garbage", rng.choice(short))]
+        scripts += [["busy", a] for a in short] + [["garbage", "c3"], ["c3", "busy"]]
+        if not session:
+            scripts += [["lost"], ["lost", "busy"], ["garbage", "lost"], ["lost", rng.choice(short), "lost"]]
+        if ch.quick():
+            scripts = scripts[:4] + rng.sample(scripts[4:], 8)
+        scns = hist.build_scenarios(ch, session, scripts, per_scn=6)
+        for s in scns:
+            s["udp"] = True
+        outs = conn.run_scenarios(scns)
+        hist.replay(ch, scns, outs, hooks, "c10")
+    # handshake payloads: a reply lost or undecodable in each exchange, then the genuine one
+    scns = []
+    su = hist.SUITES[rng.randrange(9)]
+    pats = [(ex, fault) for ex in range(3) for fault in (["lost"], ["lost", "lost"], ["garbage"], ["raw:0600"], ["garbage", "lost"], ["lost", "garbage", "garbage"])]
+    for ex, fault in (pats if not ch.quick() else rng.sample(pats, 6) + [(0, ["lost"]), (1, ["lost"]), (2, ["lost"])]):
+        scns.append({"bmc": conn.default_bmc(seed=77, suites=[[100, su[0], su[1], su[2]]]), "timeout_ms": 40, "udp": True, "fault": (ex, fault),
+                     "steps": [hs.open_step(suites=[su], script=["ok"] * ex + fault), {"op": "cmd", "conn": "session", "cmd": {"name": "getdeviceid"}, "script": ["ok"]}]})
+    for scn, out in zip(scns, conn.run_scenarios(scns)):
+        res = out["steps"][0]
+        ex, fault = scn["fault"]
+        ch.note_case("c10-udp-handshake", "%d|%s" % (ex, fault))
+        desc = {"kind": "c10", "conn": "handshake-udp", "exchange": ex, "fault": fault}
+        if res.get("panic"):
+            ch.violation(dict(desc, kind="panic"), {"scenario": scn, "panic": res["panic"]}); continue
+        if res["err"] != "nil" or len(res["sent"]) != 3 + len(fault) or out["steps"][1]["err"] != "nil":
+            ch.violation(desc, {"scenario": scn, "err": res["err"], "errtext": res.get("errtext"), "transmissions": len(res["sent"]),
+                                "what": "a handshake payload whose reply is lost or undecodable is sent again until the genuine reply arrives: "
+                                        "expected a session after %d transmissions" % (3 + len(fault))})
 
 
 def replay(ch, build, path):
